@@ -38,7 +38,11 @@ impl<T: ToJSON> JSONArrayOfObjects<T> {
 
 impl<T: FromJSON + New> JSONArrayOfObjects<T> {
     pub fn from_json(json : String) -> Result<Vec<T>, String> {
-        let items = RawUnprocessedJSONArray::split_into_vector_of_strings(json).unwrap();
+        let boxed_items = RawUnprocessedJSONArray::split_into_vector_of_strings(json);
+        if boxed_items.is_err() {
+            return Err(boxed_items.err().unwrap());
+        }
+        let items = boxed_items.unwrap();
         let mut list: Vec<T> = vec![];
         for item in items {
             let mut object = T::new();
